@@ -289,7 +289,8 @@ structure BinFile where
   magic : String
   driverId : Nat
   configId : Nat
-  includes : List String
+  includes : List String       -- the include list without its '!' entries: the files that were read
+  absent : List String := []   -- the '!' entries: files an #include looked for first and did not find
   name : String
   inherits : List String       -- names as written: "dir/file.c"
   intact : Bool := true        -- the trailing checksum matches the bytes before it
@@ -400,9 +401,25 @@ def loadBinary (w : World) (name : String) : Decision :=
     else if b.configId ≠ w.configId then .stale "config"
     else if w.simulPath ≠ "" ∧ checkTimes w mtime w.simulPath = 0 then .stale "simul"
     else if b.includes.any (fun i => checkTimes w mtime i ≤ 0) then .stale "include"
+    else if b.absent.any (fun f => checkTimes w mtime f ≠ -1) then .stale "shadowed"
     else if b.name.length > 0 ∧ b.name ≠ name then .stale "name"
     else checkInherits w mtime b.inherits
   | _, _ => .stale "nobinary"
+
+/-- `inc_open` (lib/lpc/lex.c) for one #include directive: the candidates in search order (the file next to the
+    including file, then `<include dir>/<name>` for every include directory); the first one that exists is opened, and
+    — when it was not the first candidate — every candidate tried before it is noted as missing
+    (`add_program_missing_file`: a '!' entry in the include list of the binary) -/
+def incOpen (w : World) : List String → Option (String × List String)
+  | [] => none
+  | c :: rest =>
+    if (w.mtime c).isSome then some (c, [])
+    else (incOpen w rest).map (fun r => (r.1, c :: r.2))
+
+/-- the include list as the binary stores it: '!' entries are the files that were looked for and missing -/
+def readIncludes (l : List String) : List String := l.filter (fun i => !(i.startsWith "!"))
+def missingIncludes (l : List String) : List String :=
+  (l.filter (fun i => i.startsWith "!")).map (fun i => (i.drop 1).toString)
 
 /-- what the generator declares about a program: what a compile records -/
 structure ProgDecl where
@@ -440,14 +457,16 @@ def saveStep (s : Sys) (d : ProgDecl) (linked : List (String × Nat)) : Sys :=
   else
     let bp := binPath s.w d.name
     let b : BinFile := { magic := magicId, driverId := driverId, configId := s.w.configId,
-                         includes := d.includes, name := d.name, inherits := d.inherits }
+                         includes := readIncludes d.includes, absent := missingIncludes d.includes,
+                         name := d.name, inherits := d.inherits }
     { s with w := { s.w with files := (bp, s.vnow) :: s.w.files.filter (·.1 != bp),
                              bins := (bp, b) :: s.w.bins.filter (·.1 != bp) },
              vnow := s.vnow + 1, evs := Ev.sv d.name s.vnow d.includes :: s.evs }
 
 /-- the object exists now: a new program block, linked with the blocks of the inherited programs as loaded -/
 def enterProgram (s : Sys) (name : String) (d : ProgDecl) (linked : List (String × Nat)) : Sys :=
-  let lp : LoadedProg := { files := name :: d.includes, inherits := d.inherits, gen := s.gens + 1, loadTime := s.ctime,
+  let lp : LoadedProg := { files := name :: readIncludes d.includes, inherits := d.inherits, gen := s.gens + 1,
+                           loadTime := s.ctime,
                            linked := linked }
   { s with gens := s.gens + 1,
            w := { s.w with loaded := objName s.w name :: s.w.loaded,
